@@ -5,6 +5,7 @@ Driver operations: each request line is answered by running the *model* function
 import ZkVerif.Exec.Proto
 import ZkVerif.Model.Schnorr
 import ZkVerif.Model.Arith
+import ZkVerif.Model.Transcript
 namespace ZkVerif.Ops
 open ZkVerif ZkVerif.Proto
 
@@ -32,6 +33,35 @@ def tSig (σ : Sig Fq) : String := join [tS σ.s1, tS σ.s2]
 
 def tKeyPair (kp : KeyPair Fq Fq Fq) : List String :=
   [tS kp.sk.x, tL kp.sk.ys, tS kp.sk.x1, tS kp.pk.g1, tL kp.pk.y1s, tS kp.pk.g2, tS kp.pk.x2, tL kp.pk.y2s]
+
+/-- 128 signatures as a flat list σ₁,σ₂,σ₁,σ₂,… -/
+def sigsOfFlat : List Fq → List (Sig Fq)
+  | a :: b :: r => ⟨a, b⟩ :: sigsOfFlat r
+  | _ => []
+
+def flatOfSigs (σs : List (Sig Fq)) : List Fq := σs.flatMap fun σ => [σ.s1, σ.s2]
+
+def mkRp (sigs : List Fq) (g1 y1 g2 x2 y2 : Fq) : RangeParams Fq Fq := ⟨sigsOfFlat sigs, mkPk g1 [y1] g2 x2 [y2]⟩
+
+def drawsOfFlat : List Fq → List (DigitDraws Fq)
+  | a :: b :: c :: d :: r => ⟨a, b, c, d⟩ :: drawsOfFlat r
+  | _ => []
+
+def tSProof (p : SProof Fq Fq Fq) : String :=
+  join [tS p.sig.s1, tS p.sig.s2, tS p.cp.C, tS p.cp.T, tS p.cp.zbf, tL p.cp.zs]
+
+/-- nine digit proofs as a flat list of 6-tuples σ₁',σ₂',C,T,z_bf,z -/
+def sproofsOfFlat : List Fq → List (SProof Fq Fq Fq)
+  | a :: b :: c :: d :: e :: f :: r => ⟨⟨a, b⟩, ⟨c, d, e, [f]⟩⟩ :: sproofsOfFlat r
+  | _ => []
+
+def tAtom : Atom Fq Fq Fq → String
+  | .s x => join [tV "s", tS x]
+  | .g1 x => join [tV "g1", tS x]
+  | .g2 x => join [tV "g2", tS x]
+  | .bytes b => join [tV "x", tX b]
+
+def tTranscript (t : Transcript Fq Fq Fq) : String := join (("l:" ++ toString t.length) :: t.map tAtom)
 
 def tErr : Err → String
   | .amountTooLarge v => join [tV "amount-too-large", tN v]
@@ -101,6 +131,26 @@ def dispatch (args : List String) : Option String :=
       let pk := mkPk (← parseFq g1) (← parseList y1s) (← parseFq g2) (← parseFq x2) (← parseList y2s)
       let p : SProof Fq Fq Fq := ⟨⟨← parseFq s1, ← parseFq s2⟩, ⟨← parseFq cC, ← parseFq cT, ← parseFq zbf, ← parseList zs⟩⟩
       pure (tB (spVerify Fq.e pk p (← parseFq c)))
+  -- range constraints (C10, C13, C19)
+  | ["rp-gen", stream] => do
+      match RangeParams.gen (← parseStream stream) with
+      | none => pure (tV "none")
+      | some (rp, rest) =>
+        pure (join [tV "ok", tL (flatOfSigs rp.sigs), tS rp.pk.g1, tL rp.pk.y1s, tS rp.pk.g2, tS rp.pk.x2, tL rp.pk.y2s, tN rest.length])
+  | ["rp-validate", sigs, g1, y1, g2, x2, y2] => do
+      let rp := mkRp (← parseList sigs) (← parseFq g1) (← parseFq y1) (← parseFq g2) (← parseFq x2) (← parseFq y2)
+      pure (tB (rp.validate Fq Fq.e))
+  | ["range-prove", sigs, g1, y1, g2, x2, y2, v, draws, c] => do
+      let rp := mkRp (← parseList sigs) (← parseFq g1) (← parseFq y1) (← parseFq g2) (← parseFq x2) (← parseFq y2)
+      match RangeBuilder.mk' rp (i64OfU64 (← parseHex v)) (drawsOfFlat (← parseList draws)) with
+      | none => pure (tV "none")
+      | some b =>
+        let ps := b.respond (← parseFq c)
+        pure (join ([tV "ok", tS b.commitmentScalar, "l:" ++ toString ps.length] ++ ps.map tSProof))
+  | ["range-verify", sigs, g1, y1, g2, x2, y2, proofs, c, expected] => do
+      let rp := mkRp (← parseList sigs) (← parseFq g1) (← parseFq y1) (← parseFq g2) (← parseFq x2) (← parseFq y2)
+      pure (tB (rangeVerify Fq.e rp (sproofsOfFlat (← parseList proofs)) (← parseFq c) (← parseFq expected)))
+  | ["digits", v] => do pure (join ((digitsLoop rpL (← parseHex v)).map tN))
   | ["pk-validate", g1, y1s, g2, x2, y2s] => do
       let pk := mkPk (← parseFq g1) (← parseList y1s) (← parseFq g2) (← parseFq x2) (← parseList y2s)
       pure (tB (decide pk.Valid))
